@@ -353,6 +353,20 @@ func c02Check(c c02Case) engine.Result {
 	}
 	k.cache()
 	engine.Guard(&res, "SetPayload|"+class, func() {
+		// somebody else in the program uses the library's constructors and customises what they return:
+		// none of it may show in the packets of this case (templates or defaults shared between objects)
+		if af := packet.NewAdaptationField(); af != nil {
+			_ = af.SetHasPCR(true)
+			_ = af.SetPCR(0x123456789)
+			_ = af.SetHasTransportPrivateData(true)
+			_ = af.SetTransportPrivateData([]byte{0xD1, 0xD2, 0xD3})
+			_ = af.SetDiscontinuity(true)
+		}
+		if np := packet.New(); np != nil {
+			np.SetPID(0x1ABC)
+			np.SetPayloadUnitStartIndicator(true)
+			_, _ = np.SetPayload([]byte{0xC1, 0xC2})
+		}
 		p0 := k.bytes()
 		c02Partition(&res, "initial|"+class, k, &p0)
 		var bufs, keeps [2][201]byte
@@ -657,7 +671,7 @@ func init() {
 		Scenarios: []engine.ScenarioRunner{
 			&engine.Enum[c02Case]{
 				Name: "setpayload",
-				Rule: "case = well-formed packet shape: adaptation field none / length 0..182 with payload / 183 adaptation-field-only / 183 with the payload flag and a zero-length payload x optional-field combination (all 32 presence subsets x private/extension lengths {0,1,3} that fit, plus near-maximal private data / extension leaving 0..6 bytes of room in the packet) x header pattern x old-payload fill (quick: 4 paired header/fill patterns; thorough: all 16); Check runs the partition accessors on the packet, SetPayload with every length 0..200 x 2 contents (exact reference packet, count, partition/read-back, independence of the method-form copy) and a second SetPayload of 8 boundary lengths on 7 of the results",
+				Rule: "case = well-formed packet shape: adaptation field none / length 0..182 with payload / 183 adaptation-field-only / 183 with the payload flag and a zero-length payload x optional-field combination (all 32 presence subsets x private/extension lengths {0,1,3} that fit, plus near-maximal private data / extension leaving 0..6 bytes of room in the packet) x header pattern x old-payload fill (quick: 4 paired header/fill patterns; thorough: all 16); Check first customises objects obtained from NewAdaptationField() and New() (they belong to somebody else: nothing of them may show later), then runs the partition accessors on the packet, SetPayload with every length 0..200 x 2 contents (exact reference packet, count, partition/read-back, independence of the method-form copy) and a second SetPayload of 8 boundary lengths on 7 of the results",
 				Gen: func(r *engine.Run, emit func(c02Case)) {
 					for afLen := -1; afLen <= 183; afLen++ {
 						for combo := range c02Combos {
